@@ -46,3 +46,26 @@ func Yield() {
 		(*f)()
 	}
 }
+
+// autoYieldLock is the same for the inserted yield points that immediately precede a mutex
+// acquisition (where a goroutine that has read shared state is about to act on it): a harness
+// may treat those differently. Without a function of its own such a point is an ordinary one.
+var autoYieldLock atomic.Pointer[func()]
+
+// SetAutoYieldLock installs (or, with nil, removes) the pre-lock yield function.
+func SetAutoYieldLock(f func()) {
+	if f == nil {
+		autoYieldLock.Store(nil)
+		return
+	}
+	autoYieldLock.Store(&f)
+}
+
+// YieldLock is a fine-grained yield point placed right before a Lock/RLock call.
+func YieldLock() {
+	if f := autoYieldLock.Load(); f != nil {
+		(*f)()
+		return
+	}
+	Yield()
+}
